@@ -315,7 +315,7 @@ impl Prop for C14 {
                         // vacuity guard: against the valid server, with nothing overridden, the query must succeed - otherwise the
                         // three paths would only be agreeing about an error
                         if *b == Behaviour::Valid && extra.is_none() && !matches!(xa.outcome, Outcome::Ok(_)) {
-                            ctx.violation("MACHINERY:valid-reference-server-rejected", &[], format!("{label}: {cfg}"), outcome_key(&xa.outcome), "Ok(..)", render_log(&xa.log));
+                            ctx.violation("valid-reference-server-rejected", &[], format!("{label}: {cfg}"), outcome_key(&xa.outcome), "Ok(..)", render_log(&xa.log));
                         }
                         // path C
                         let xc = run(&|| protocol_path(game, &ip, port, ts, extra.clone()));
